@@ -39,20 +39,36 @@ def ref? (e : Sexp) : Option Nat :=
     | none => none
   | _ => none
 
+/-- the "falsy looking" values: `u` = undef (its text is `_`, what every query prints for undef), `bt` / `bf` = the
+booleans, `d` = default, `(h)` = the empty hash.  Opaque texts like every other value. -/
+def specialVal? : Sexp → Option String
+  | .atom "u" => some "_"
+  | .atom "bt" => some "bt"
+  | .atom "bf" => some "bf"
+  | .atom "d" => some "d"
+  | .list [.atom "h"] => some "(h)"
+  | _ => none
+
 partial def valStr : Sexp → Option String
   | .atom s =>
     match intAtom? (.atom s) with
     | some i => some i
-    | none => keyAtom? (.atom s)
+    | none =>
+      match specialVal? (.atom s) with
+      | some t => some t
+      | none => keyAtom? (.atom s)
+  | .list [.atom "h"] => some "(h)"
   | .list (.atom "a" :: xs) => (xs.mapM valStr).map fun ps => "(" ++ sp ("a" :: ps) ++ ")"
   | _ => none
 
 /-- text that `types.Parse` reads back unchanged: integers, strings over [a-z0-9], arrays of those -/
 partial def plainText : Sexp → Bool
+  | .list [.atom "h"] => true
   | .atom s =>
     match intAtom? (.atom s) with
     | some _ => true
     | none =>
+      if (specialVal? (.atom s)).isSome then true else
       match (Sexp.atom s).bytes? with
       | some bs => bs.all fun b => (97 ≤ b.toNat ∧ b.toNat ≤ 122) ∨ (48 ≤ b.toNat ∧ b.toNat ≤ 57)
       | none => false
@@ -379,10 +395,14 @@ def execHash (steps : List Sexp) : String :=
 
 /-- a value with the structure `Flatten` looks at; `none` = not a value -/
 partial def avalOf : Sexp → Option AVal
+  | .list [.atom "h"] => some (.leaf "(h)")
   | .atom s =>
     match intAtom? (.atom s) with
     | some i => some (.leaf i)
-    | none => (keyAtom? (.atom s)).map .leaf
+    | none =>
+      match specialVal? (.atom s) with
+      | some t => some (.leaf t)
+      | none => (keyAtom? (.atom s)).map .leaf
   | .list (.atom "a" :: xs) => (xs.mapM avalOf).map .arr
   | _ => none
 
